@@ -3,6 +3,7 @@
 set -e
 cd "$(dirname "$0")"
 export CARGO_NET_OFFLINE=true
+export CARGO_TARGET_DIR="$(pwd)/target"
 (cd harness && cargo build --release --offline)
 if [ -d fuzz ] && [ -f fuzz/Cargo.toml ]; then
   (cd fuzz && cargo +nightly fuzz build -O 2>&1 | tail -3) || echo "fuzz build failed (thorough tier fuzz campaigns will be inconclusive)" >&2
